@@ -113,6 +113,7 @@ PROPS = {
 }
 
 KERNEL_CASES = {'quick': 12, 'thorough': 60}      # histories re-evaluated inside Coq per check
+ZERO_CAP_PROPS = {'C01', 'C05', 'C12', 'C13', 'C15'}      # these also run their families at capacity N = 0 (u8/u64/h256)
 SMALL_SCOPE_PROPS = {'C01', 'C02', 'C03', 'C04', 'C06', 'C07', 'C09'}
 # histories per scenario family (a property with more families gets proportionally more histories)
 PER_FAMILY = {'quick': 500, 'thorough': 8000}
@@ -689,6 +690,9 @@ def make_histories(prop, tier, seed, boost=1):
     if prop in SMALL_SCOPE_PROPS:
         # small scope: every operation sequence of length 3 over a reduced alphabet (thorough); a sample of length-5 ones (quick)
         hs += [('small_scope', h.text()) for h in (gen.small_scope(seed, depth=3) if tier == 'thorough' else gen.small_scope(seed, depth=5, sample=360))]
+    hs += [('extra_kind_quad', h.text()) for h in gen.extra_kind(seed, fams, 150 * boost if tier == 'quick' else 2000)]
+    if prop in ZERO_CAP_PROPS:
+        hs += [('zero_capacity', h.text()) for h in gen.zero_capacity(seed, fams=[f for f in spec['fams'] if f != 'big' and f != 'deep'])]
     if prop == 'C17':
         hs += [('builder_exhaustive', h.text()) for h in gen.builder_exhaustive(seed, dmax=4 if tier == 'quick' else 7)]
     if spec.get('lockstep'):
